@@ -351,6 +351,16 @@ def run(prop, tier, seed):
                 for row in table["gen"]:
                     for opk in ("gen", "multi"):
                         b.add_history(None, [dict(op=opk, dom=row["dom"], ip=row["ip"], v=row["v"])], (-1, -1, -1))
+                # two-step histories on one service instance: a verdict must not depend on what was served before
+                gp = [(r1, r2) for r1 in table["gen"] for r2 in table["gen"]]
+                hot = [q for q in gp if "exit" in (q[0]["dom"], q[1]["dom"]) or q[0]["dom"] in ("att", "prop") or q[1]["dom"] in ("att", "prop")]
+                if tier == "quick":
+                    gp = hot + rnd.sample(gp, 200)
+                b.flush()
+                for qi, (r1, r2) in enumerate(gp):
+                    # each pair gets a scenario of its own stack: pack one pair per lane, lanes run step 0 first, then step 1
+                    b.add_history(None, [dict(op=("gen", "multi")[qi % 2], dom=r1["dom"], ip=r1["ip"], v=r1["v"]),
+                                         dict(op=("multi", "gen")[(qi // 2) % 2], dom=r2["dom"], ip=r2["ip"], v=r2["v"])], (-1, -1, -1))
             b.flush()
             # (2) all two-step histories
             if "att" in p["kinds"] and prop in ("C01", "C09"):
